@@ -104,10 +104,14 @@ Plan generate_plan(const std::string &prop, const std::string &tier, uint64_t ba
 // ------------------------------------------------------------------ seq execution
 struct SeqOpts { int ctor_fk = 0, ctor_fm = 0; bool probe = false; int probe_at = -1; };
 
-static void check_dump(World &w, Model &m, Ctx &x, const char *when) {
+static void check_dump(World &w, Model &m, Ctx &x, const char *when, bool after_fault = false) {
     Bookkeeping bk;
     std::string sd = w.sut_dump(x), md = m.dump();
-    if (sd != md) x.fail("contents-mismatch", "result", std::string("observable contents differ from the model ") + when + ": table " + hexs(sd, 120) + " model " + hexs(md, 120));
+    if (sd == md) return;
+    std::string what = std::string("observable contents differ from the model ") + when + ": table " + hexs(sd, 120) + " model " + hexs(md, 120);
+    // once an allocation failure has been injected, wrong contents are C15's verdict ("completes correctly or reports failure", "later operations behave normally")
+    if (after_fault && x.o_enomem) x.fail("wrong-contents-after-fault", "enomem", what);
+    x.fail("contents-mismatch", "result", what);
 }
 
 // run client 0's ops sequentially against SUT and model. Used directly (seq) and for each derived case (enum/lockbal).
@@ -119,6 +123,7 @@ static void run_seq_body(const Plan &p, World &w, Ctx &x, const SeqOpts &so) {
     bool ts = p.cfg.get("ts") != 0;
     const std::vector<Op> &ops = p.clients.empty() ? *new std::vector<Op>() : p.clients[0];
     bool created = false;
+    int total_fired = 0;
     try {
         x.cur_op = -1; x.cur_opname = "constructor";
         sim_op_begin(-1, so.ctor_fk, so.ctor_fm);
@@ -138,7 +143,6 @@ static void run_seq_body(const Plan &p, World &w, Ctx &x, const SeqOpts &so) {
             if (!ok) x.fail("ctor-failed", "harness", "constructor failed without an injected fault");
         } else if (fired) x.st.add("fault.ctor_survived");
         created = true;
-        int total_fired = 0;
         for (size_t i = 0; i < ops.size(); i++) {
             x.cur_op = (int)i; x.cur_opname = w.opnames()[ops[i].k];
             std::unique_ptr<Model> before;
@@ -214,10 +218,10 @@ static void run_seq_body(const Plan &p, World &w, Ctx &x, const SeqOpts &so) {
             if (w.is_mutation(op) && !got.fail) x.mutations++;
             if (x.o_struct) { Bookkeeping bk; w.sut_struct(x); }
             if (x.o_alias && w.is_mutation(op)) x.verify_pool("after a later mutation");
-            if ((x.o_result || x.o_enomem) && ((i & 15) == 15 || fired > 0)) check_dump(w, *model, x, "after the operation");
+            if ((x.o_result || x.o_enomem) && ((i & 15) == 15 || fired > 0)) check_dump(w, *model, x, "after the operation", total_fired > 0);
         }
         x.cur_op = (int)ops.size(); x.cur_opname = "end";
-        if (x.o_result || x.o_enomem) check_dump(w, *model, x, "at the end of the history");
+        if (x.o_result || x.o_enomem) check_dump(w, *model, x, "at the end of the history", total_fired > 0);
         if (x.o_struct) w.sut_struct(x);
         x.verify_pool("before the container was freed");
         x.cur_opname = "free";
